@@ -1,6 +1,6 @@
 PART = {
   "C13": dict(
-    imports=["Carquet.Properties.C13.Thrift"],
+    imports=["Carquet.Properties.C13.Thrift", "Carquet.Properties.C13.PageIndex"],
     obligations=[
       "Carquet.Properties.C13.C13_tables_match_spec",
       "Carquet.Properties.C13.C13_tables_wellformed",
@@ -15,25 +15,55 @@ PART = {
       "Carquet.Properties.C13.C13_regression_F9",
       "Carquet.Properties.C13.C13_regression_F8",
       "Carquet.Properties.C13.C13_regression_F24",
+      "Carquet.Properties.C13.C13_pageindex_tables_match_spec",
+      "Carquet.Properties.C13.C13_columnindex_is_compact",
+      "Carquet.Properties.C13.C13_offsetindex_is_compact",
+      "Carquet.Properties.C13.C13_regression_F70",
     ],
     components=["thrift"],
-    fidelity={"Impl.Thrift": "exact", "Impl.ThriftParquet": "exact (C unions: see NOTES_thrift.md)"},
+    fidelity={"Impl.Thrift": "exact", "Impl.ThriftParquet": "exact (C unions: see NOTES_thrift.md)",
+              "Impl.ThriftPageIndex": "exact (bytes appended and status of the two page-index serialisers; builder state as left by add_page)",
+              "Impl.ThriftCost": "structural (step counters following the tied control flow; not tied themselves)"},
     rule="thrift: generated FileMetaData / PageHeader values (all logical types, extreme integers, empty/long/non-ASCII "
          "names, lists of 0/14/15/16+ elements, optional members present or absent) through the real writers and parsers; "
          "encodings of the same structures by an independent C encoder (long-form field and list headers, unknown fields "
          "of every wire type incl. list<bool>/map<bool,..>, nested containers); mutations, every prefix, random bytes; "
          "one case at and one above each VALIDATE_COUNT limit; nesting 28..36, 100, 1000 and 200000 levels; every decoder "
-         "primitive on varints of every length; encoder call programs incl. nesting 30..36; distinct = distinct (op, inputs)",
+         "primitive on varints of every length; encoder call programs incl. nesting 30..36; lists/sets/maps of BYTE/DOUBLE/UUID "
+         "with 0..2*width+1 bytes left (ignored carquet_buffer_reader_skip results); page-index builders with 0/1/14/15/16/17/33/64 "
+         "and random page counts, NULL / empty / short / long bounds, extreme integers, with and without uncompressed-size "
+         "tracking, serialised and read by the Spec decoder; distinct = distinct (op, inputs)",
     assumptions=["little-endian host (doubles)", "arena allocation failures not modelled (C19)",
+                 "page-index serialisers: builder state as left by add_page with allocations succeeding; carquet has no parser for "
+                 "ColumnIndex / OffsetIndex, the round trip is through the Spec decoder",
                  "C struct domain: enum ids of carquet_logical_type_t in 0..14, time units in 0..2, strings NUL-terminated"],
-    trusted_base=["translate/gen_thrift.py (regex extraction of field ids / wire types from parquet_types.c)",
+    trusted_base=["translate/gen_thrift.py (regex extraction of field ids / wire types from parquet_types.c and, for the two "
+                  "page-index serialisers, page_index.c incl. list element types)",
+                  "Spec/ParquetThriftPageIndex.lean (ColumnIndex / OffsetIndex / PageLocation of parquet.thrift, from memory)",
                   "harness/thrift_foreign.h (independent Thrift compact encoder used as C-side oracle input)",
                   "Spec/ParquetThrift.lean field tables written from memory of parquet.thrift"],
+  ),
+  # safety of the metadata parser on arbitrary bytes (statements of C04 / C08 about the Thrift layer); the tie of the
+  # models is the C13 component above — imports / obligations only here
+  "C04": dict(
+    imports=["Carquet.Properties.C04.Thrift"],
+    obligations=[
+      "Carquet.Properties.C04.C04_thrift_file_metadata_safe",
+      "Carquet.Properties.C04.C04_thrift_page_header_safe",
+      "Carquet.Properties.C04.C04_thrift_skip_safe",
+      "Carquet.Properties.C04.C04_thrift_skip_in_buffer",
+      "Carquet.Properties.C04.C04_thrift_skip_stack_bound",
+      "Carquet.Properties.C04.C04_thrift_skip_linear",
+      "Carquet.Properties.C04.C04_thrift_parsers_linear",
+      "Carquet.Properties.C04.C04_thrift_counts_bounded",
+      "Carquet.Properties.C04.C04_thrift_list_alloc_bounded",
+    ],
   ),
 }
 
 # what the check delivers, in the component builder's words
 PART['C13'].update(
-    text="Impl models of the Thrift compact codec and of every parquet_types.c writer/parser; proved: varint/zigzag round trip, parse(write v) = norm v with all bytes consumed for every well-formed FileMetaData / PageHeader, carquet's bytes are a compact-protocol encoding of the value parquet.thrift assigns (independent Spec decoder), thrift_skip consumes exactly any value of any wire type within the nesting limit; field tables re-extracted from the source and compared with parquet.thrift on every run; model tied to the C code by differential execution incl. an independent encoder with unknown fields",
+    text="Impl models of the Thrift compact codec, of every parquet_types.c writer/parser and of the two page-index serialisers of metadata/page_index.c; proved: varint/zigzag round trip, parse(write v) = norm v with all bytes consumed for every well-formed FileMetaData / PageHeader, carquet's bytes are a compact-protocol encoding of the value parquet.thrift assigns (independent Spec decoder), thrift_skip consumes exactly any value of any wire type within the nesting limit, any admitted encoding with unknown fields at EVERY nesting level (syntactic ExtendsDeep over parquet.thrift's struct tree) parses to the same structure, ColumnIndex / OffsetIndex bytes are admitted / canonical compact protocol of the parquet.thrift value (Spec decoder reads it back); field tables re-extracted from the source and compared with parquet.thrift on every run; model tied to the C code by differential execution incl. an independent encoder with unknown fields",
     level_note='Lean kernel; translator gen_thrift.py; harness with independent C encoder; ASan/UBSan',
     technique='Lean 4 proof over Spec (generic compact protocol + parquet.thrift tables) and exact Impl models, translator for field tables, differential correspondence to the C code')
+
